@@ -150,7 +150,7 @@ PM_STIFF = {"stiff": (40.0, 20.0, 30.0), "soft": (4.0, 2.0, 3.0)}   # 'soft': di
 #  (several equilibria, Newton may fail in a load step: natural early stops; no frame comparison there)
 
 
-def build_pm_plane(load, place, spring="force", seed=0, stiff="stiff"):
+def build_pm_plane(load, place, spring="force", seed=0, stiff="stiff", contact=True):
     """point mass above the placed plane z=0 (normal placed e_z), held by three linear springs (PM_STIFF[stiff]) that are undeformed at
     the initial position; spring: 'force' | 'compliance'"""
     from cardillo import System
@@ -185,8 +185,9 @@ def build_pm_plane(load, place, spring="force", seed=0, stiff="stiff"):
             else:
                 sp = Spring(tpi, kk, l_ref=float(np.linalg.norm(d)), compliance_form=(spring == "compliance"), name=f"spring{k}")
             system.add(anchor, tpi, sp)
-        con = Sphere2Plane(plane, pm, mu=0.0, r=R, name="contact")
-        system.add(con, Force(lambda t: f0 + t * (f1 - f0), pm, name="load"))
+        if contact:
+            system.add(Sphere2Plane(plane, pm, mu=0.0, r=R, name="contact"))
+        system.add(Force(lambda t: f0 + t * (f1 - f0), pm, name="load"))
         system.assemble(options=SolverOptions(compute_consistent_initial_conditions=False))
     return system, pm
 
